@@ -15,6 +15,7 @@
      NumbersOK      the rows of a snippet are numbered consecutively
      MarkOK         when the source is available exactly one row is marked: the failing line
      VerbatimOK     a row whose source line consists of single-line tokens shows that line (trailing blanks aside)
+     AsciiGlyphsOK  on an I/O that does not support UTF-8 the snippet's marker and delimiter are the ASCII ones
      IgnoredOK      unless the verbosity is debug no listed frame lies under the ignored path
      DebugShowsIgnored  at debug verbosity the frames under the ignored path are listed too
    "Style markup aside" (MatchAside): the shown text is the message from which some tag-shaped pieces "<...>" (no
@@ -57,7 +58,7 @@ MatchAside(out, msg) == MatchFrom(out, msg, 1, 1)
 LineShows(outl, msgl) == MatchAside(TrimC(outl), TrimC(msgl))
 
 \* ------------------------------------------------------------------ P-clauses over an observation
-\* case c = [simple, verb (0 normal, 1 verbose, 2 very verbose, 3 debug), ignoring, name, msg : Seq(line)]
+\* case c = [simple, verb (0 normal, 1 verbose, 2 very verbose, 3 debug), utf8, ignoring, name, msg : Seq(line)]
 \* obs  o = [esc, lines : every output line, head : the lines before the snippet location line and after the stack
 \*           trace, listing : Seq([ign, file, lineno, fn]), snippets : Seq([line, avail, rows])]
 \*           row = [num, marked, text, known, src, single]
@@ -73,6 +74,8 @@ MarkOK(sn) == sn.avail => LET M == {k \in 1..Len(sn.rows) : sn.rows[k].marked}
                           IN \E k \in M : M = {k} /\ sn.rows[k].num = sn.line
 VerbatimOK(sn) == \A k \in 1..Len(sn.rows) :
                     LET r == sn.rows[k] IN (r.known /\ r.single) => RTrimC(r.text) = RTrimC(r.src)
+\* an I/O without UTF-8 support gets ASCII symbols: rows carry mark ("" or the marker glyph) and delim (the delimiter glyph)
+AsciiGlyphsOK(c, sn) == ~c.utf8 => \A k \in 1..Len(sn.rows) : sn.rows[k].mark \in {"", ">"} /\ sn.rows[k].delim = "|"
 \* which row is the first / which kind of row breaks the clause (discriminates findings)
 BadVerbatim(sn) == {k \in 1..Len(sn.rows) : LET r == sn.rows[k] IN r.known /\ r.single /\ RTrimC(r.text) # RTrimC(r.src)}
 IgnoredOK(c, o) == (c.ignoring /\ c.verb < 3) => \A k \in 1..Len(o.listing) : ~o.listing[k].ign
